@@ -243,6 +243,7 @@ Definition model_641 (a : list (list N)) : list (list N) :=
   | 2 => [[1]; match map_read (QRReset code) with SRReset c => [1; c] | _ => [3] end]
   | 3 => [[1]; [1; varint_w2q code]]
   | 4 => [[1; 1]; [1; varint_w2q code]]
+  | 7 => [[1; 1]; [1; varint_w2q code]]   (* an abandoned finish() does not swallow the reset *)
   | 5 => [[1; 1; nb]; match finish_result QSNone with None => [0] | Some e => enc_sw e end; [0]]
   (* finish() retried while nothing is acknowledged: pending twice (the cell is not set), then Ok *)
   | 6 => [[1; 1]; PENDING; PENDING; match finish_result QSNone with None => [0] | Some e => enc_sw e end; [0]]
